@@ -260,7 +260,7 @@ def g2(rng, rtype_hint=None):
     if r < 0.9:
         ty = rtype_hint if (rtype_hint in TYPED and rng.random() < 0.8) else rng.choice(TYPED)
         return "?data:%d:L" % ty
-    return "?opt:L"
+    return "?optorskip:L"
 
 
 def conforming_script(rng, L, ast, ri=0, maxlen=60):
@@ -308,7 +308,7 @@ def conforming_script(rng, L, ast, ri=0, maxlen=60):
             calls.append(g1(rng))
             hint = recs[i]["type"] if i < len(recs) else None
             if hint == 41 and rng.random() < 0.8:
-                calls.append("?opt:L")
+                calls.append("?optorskip:L")
             else:
                 calls.append(g2(rng, hint))
             sprinkle()
@@ -322,7 +322,7 @@ def misuse_script(rng, nreaders, maxlen=40):
     """non-conforming: any call in any order on any reader, markers/namerefs shared"""
     calls = []
     names = ["header", "seek", "qcount", "rcount", "rcountin", "q", "qref", "theq", "theqref", "skipq", "marker", "href",
-             "hdrH", "hdrI", "skipd", "bytes", "data", "opt", "bytesat", "dataat", "nrefat", "nreq", "nrname", "nrlabels"]
+             "hdrH", "hdrI", "skipd", "bytes", "data", "opt", "optorskip", "bytesat", "dataat", "nrefat", "nreq", "nrname", "nrlabels"]
     for r in range(nreaders):
         if rng.random() < 0.8:
             calls.append("%d.header" % r)
@@ -333,7 +333,7 @@ def misuse_script(rng, nreaders, maxlen=40):
         k = rng.choice(["L", "0", "1", "2", "3", str(rng.randrange(0, 8))])
         if c in ("seek", "rcountin"):
             c += ":%d" % rng.choice([0, 1, 2])
-        elif c in ("skipd", "bytes", "opt", "bytesat", "nrefat"):
+        elif c in ("skipd", "bytes", "opt", "optorskip", "bytesat", "nrefat"):
             c += ":" + k
         elif c in ("data", "dataat"):
             c += ":%d:%s" % (rng.choice(TYPED), k)
